@@ -141,9 +141,12 @@ RouteOfCase(x) == RouteOf(x.form, x.la, x.lb)
 DispatchRefinesL1 ==
     IsPairForm(c) =>
         LET ops == OpsOf(c)  r == RouteOfCase(c)
+            want == EinsteinTerms(ops[1], ops[2])
         IN \A isa \in {"scalar", "sse2"} :
              LET V == VecStride(c.T, isa, c.la, c.lb, c.sb)
-             IN DefectClass(r, c.T, isa, c.la, c.lb, c.sb) # "" \/ RouteRefinesL1(r, ops[1], ops[2], V)
+             IN \/ DefectClass(r, c.T, isa, c.la, c.lb, c.sb) # ""
+                \/ (isa = "sse2" /\ V = 1)                         \* same obligation as the scalar build
+                \/ RouteRefinesTo(want, r, ops[1], ops[2], V)
 
 Emit == PrintT(<<"PLAN", ToJson([form |-> c.form, T |-> c.T, la |-> c.la, lb |-> c.lb, sa |-> c.sa, sb |-> c.sb, out |-> c.out, v |-> c.v,
                                   route |-> IF IsPairForm(c) THEN RouteOfCase(c) ELSE c.form,
